@@ -5,9 +5,54 @@ from ..leafcommon import *
 from .. import gen_fnx
 from fractions import Fraction
 from ..common import F, fs, dy
+import math
 
 SETTABLE = {'SDevice': ['c1', 'c2', 'c3', 'capacity', 'damage_depth', 'start', 'efficiency', 'sustainment'], 'CDevice': ['a', 'b']}   # TDevice parameters are read-only
 P_FNX = 0.25      # share of cases from vk/gen_fnx.py (function classes outside the Lean `Fn` embedding: oracle only)
+ND_SHARE = 10     # one dedicated numdifftools-class case (TemporalVariance / CobbDouglas / InformationEntropy) per ND_SHARE cases, appended
+ND_GRAD_TOL = 1e-6   # implementation's nd.Jacobian vs the analytic gradient (measured worst 6.6e-12 over 8783 generator cases)
+
+
+def nd_top(case):
+  """'tvar' / 'cobb' / 'entropy' when the preference function of an fnx case IS one of the numerically differentiated classes
+  (top level; nested inside sum / reflect / ranges stays finite-difference-oracle only)."""
+  k = case['dev']['prm'].get('fx', {}).get('k') if case.get('fnx') else None
+  return k if k in gen_fnx.NUMERIC_KINDS else None
+
+
+def nd_analytic_grad(fx, x):
+  """TRANSCRIPTION into Python of the analytic gradients the Lean theorems are about (lean/DK/Model/FnNd.lean `tvarGrad`,
+  lean/DK/Lemmas/FnNd.lean `cobbGrad` / `entropyGrad`), proved to be the gradient of the modelled cost by
+  DK.C01nd.tvar_grad / DK.C01nd.cobb_grad / DK.C01nd.entropy_grad.  `x`: float vector; price not included."""
+  n_ = np(); c = C.pf(fx['c']); x = n_.array(x, dtype=float).reshape(-1)
+  if fx['k'] == 'tvar':        # tvarGrad c n r k = c * (k - com r)^2,  com r = (sum i*r_i) / (sum r_i)
+    t = n_.arange(x.size); com = (t*x).sum()/x.sum()
+    return c*(t - com)**2
+  if fx['k'] == 'cobb':        # cobbGrad c a n r k = c * (a_k / sum a) / r_k * prod_i r_i ^ (a_i / sum a)      (all r_i > 0)
+    a = n_.array([C.pf(v) for v in fx['a']]); al = a/a.sum()
+    return c*al/x*n_.prod(x**al)
+  if fx['k'] == 'entropy':     # entropyGrad c n r k = c * sign(r_k) / sum|r| * (log p_k - sum_i p_i log p_i),  p_i = |r_i| / sum|r|   (all r_i != 0)
+    T = n_.abs(x).sum(); pr = n_.abs(x)/T
+    return c*n_.sign(x)/T*(n_.log(pr) - (pr*n_.log(pr)).sum())
+  raise ValueError(fx['k'])
+
+
+def nd_analytic_cost(fx, x):
+  """TRANSCRIPTION of the modelled costs the same theorems differentiate: `tvarCost` (DK/Model/FnNd.lean), `cobbCost` / `entropyCost`
+  (DK/Lemmas/FnNd.lean).  Ties "the modelled cost is the implementation's cost" for the two classes without an executable model."""
+  n_ = np(); c = C.pf(fx['c']); x = n_.array(x, dtype=float).reshape(-1)
+  if fx['k'] == 'tvar':        # c * sum_i (i - com r)^2 * r_i
+    t = n_.arange(x.size); com = (t*x).sum()/x.sum()
+    return c*sum((t[i] - com)*(t[i] - com)*x[i] for i in range(x.size))
+  if fx['k'] == 'cobb':        # c * prod_i r_i ^ (a_i / sum a)
+    a = [C.pf(v) for v in fx['a']]; out = 1.0
+    for i in range(x.size):
+      out *= x[i]**(a[i]/sum(a))
+    return c*out
+  if fx['k'] == 'entropy':     # c * sum_i (0 if r_i = 0 else p_i log p_i),  p_i = |r_i| / sum|r|
+    T = sum(abs(v) for v in x)
+    return c*sum(0.0 if v == 0 else abs(v)/T*math.log(abs(v)/T) for v in x)
+  raise ValueError(fx['k'])
 
 
 class C01(Prop):
@@ -21,6 +66,8 @@ class C01(Prop):
     'DK.Props.C01c': ['DK.C01c.fn_grad'],
     'DK.Props.C01all': ['DK.C01all.leaf_grad', 'DK.C01all.line_integral_of_grad', 'DK.C01all.idevice2_line_integral'],
   }
+  theorems['DK.Props.C01nd'] = ['DK.C01nd.tvar_grad', 'DK.C01nd.adevice_tvar_grad', 'DK.C01nd.tvarGrad_eq', 'DK.C01nd.tvarCost_eq',
+                                'DK.C01nd.cobb_grad', 'DK.C01nd.entropy_grad']     # analytic gradients of the numdifftools-based classes
   bridge = ['DK.Bridge.hlq_cost', 'DK.Bridge.hlq_deriv', 'DK.Bridge.abc_cost', 'DK.Bridge.abc_deriv', 'DK.Bridge.abc_q']
   bridge_vec = ['DK.BridgeVec.Device_cost', 'DK.BridgeVec.Device_deriv', 'DK.BridgeVec.CDevice_cost', 'DK.BridgeVec.CDevice_deriv',
                 'DK.BridgeVec.IDevice2_cost', 'DK.BridgeVec.IDevice2_deriv', 'DK.BridgeVec.IDevice_cost',
@@ -48,6 +95,17 @@ class C01(Prop):
           'empty / single SumFunction')
   sizes = {'quick': 400, 'thorough': 12000}
   assumptions = ['oracle: central finite differences (h=1e-5) of the implementation cost, away from kinks']
+  rule = rule + ('; plus 1 in %d: ADevice(f = TemporalVariance | CobbDouglas | InformationEntropy) on a strictly positive box (entropy: also '
+                 'mixed-sign boxes), n 1..8 - TemporalVariance tied by T2 to the exact rational model (fnnd.*), the other two by the transcription oracle' % ND_SHARE)
+  assumptions = assumptions + [
+    'T2 fnnd.deriv (ADevice(f=TemporalVariance(c)), strictly positive box): the implementation\'s NUMERIC deriv (nd.Jacobian) vs the model\'s ANALYTIC '
+    'gradient tvarGrad + p (DK.C01nd.tvar_grad / adevice_tvar_grad) at 1e-6 relative; measured numdifftools deviation on 8783 generator cases: '
+    'worst 6.6e-12 (>= 10^5 margin); fnnd.dcost (cost difference from the lower-bound flow) at 1e-9; a ZeroDivisionError inside numdifftools '
+    '(probe through a zero total flow: open C14 finding) is skipped, not compared',
+    'oracle (CobbDouglas, InformationEntropy, TemporalVariance at top level): numeric deriv vs a Python TRANSCRIPTION of the Lean formulas cobbGrad / '
+    'entropyGrad / tvarGrad (theorems DK.C01nd.cobb_grad: all r_i > 0, sum a != 0; DK.C01nd.entropy_grad: all r_i != 0, either sign; '
+    'DK.C01nd.tvar_grad: sum r != 0) at 1e-6 relative, flows more than 1/4 away from 0; the transcription itself is trusted (checked against '
+    'finite differences of the implementation cost: worst 1e-10 / 7e-11 / 5e-9 on 400 random cases each)']
 
   def __init__(self):
     self.stat = {}
@@ -77,7 +135,74 @@ class C01(Prop):
           if v0 is not None and not isinstance(v0, list) and v0 != case['dev']['prm'].get(k):
             case['set0'] = {k: v0}
         out.append(case)
+    for _ in range(count // ND_SHARE):
+      out.append(self.nd_case(rng, tier))
     return out
+
+  def nd_case(self, rng, tier):
+    """ADevice whose preference function IS TemporalVariance / CobbDouglas / InformationEntropy (top level) on a strictly positive box
+    (entropy: half of them with slots of either sign, |r| >= 1/2): TemporalVariance gets T2 ops against the exact rational model
+    (`fnnd.*`), all three the transcription oracle of the analytic gradient, plus the finite-difference oracle every fnx case has."""
+    n = rng.randint(1, 8)
+    kind = rng.choice(['tvar', 'tvar', 'cobb', 'entropy'])
+    lb = [dy(rng, Fraction(1, 2), 2) for _ in range(n)]; hb = [a + dy(rng, 0, 3) for a in lb]
+    if kind == 'entropy' and rng.random() < 0.5:
+      for i in range(n):
+        if rng.random() < 0.5:
+          lb[i], hb[i] = -hb[i], -lb[i]
+    fx = {'k': kind, 'c': fs(dy(rng, Fraction(1, 4), 2))}
+    if kind == 'cobb':
+      fx['a'] = [fs(dy(rng, Fraction(1, 4), 3)) for _ in range(n)]
+    same = len(set(lb)) == 1 and len(set(hb)) == 1
+    d = {'cls': 'ADevice', 'n': n, 'lb': [fs(x) for x in lb], 'hb': [fs(x) for x in hb], 'cbs': [], 'prm': {'fx': fx},
+         '_py': {'bform': rng.choice((['pair'] if n != 2 else []) + ['table'] + (['scalar'] if same else [])), 'cform': None}}
+    s = gen.gen_flow(rng, lb, hb, rng.choice(['interior', 'interior', 'mixed']))
+    return {'dev': d, 's': [fs(x) for x in s], 'p': gen.gen_price(rng, n), '_shape': rng.choice(['flat', 'flat', 'row']), 'fnx': True, 'nd': kind}
+
+  def nd_ops(self, case):
+    """T2 for ADevice(f = TemporalVariance(c)): cost difference vs the exact model at 1e-9; the implementation's NUMERIC marginal cost
+    (nd.Jacobian) vs the model's ANALYTIC gradient (tvarGrad + p, DK.C01nd.adevice_tvar_grad) at ND_GRAD_TOL."""
+    d = case['dev']; fx = d['prm']['fx']
+    if not all(F(x) > 0 for x in d['lb']) or not gen_fnx.kink_free(fx, [F(x) for x in case['s']]):
+      self.bump('fnnd: not on a strictly positive box / within 1/4 of zero (not compared)')
+      return []
+    dev = gen_fnx.build_adevice(d)
+    s = flow_arr(case); p = build.price(case['p'])
+    a0 = flow_arr(case, d['lb'])
+    try:
+      g = dev.deriv(s, p)
+    except ZeroDivisionError:
+      self.bump('fnnd: numdifftools probed through a zero total flow (open C14 finding): skipped')
+      return []
+    self.bump('fnnd: TemporalVariance numeric deriv vs analytic model compared')
+    base = {'f': fx, 'n': d['n'], 's': case['s'], 'p': case['p']}
+    return [
+      Op(dict(base, op='fnnd.dcost', s0=d['lb']), lambda: dev.cost(s, p) - dev.cost(a0, p), 1e-9, 'cost difference (TemporalVariance)'),
+      Op(dict(base, op='fnnd.deriv'), lambda: g, ND_GRAD_TOL, 'numeric deriv vs analytic gradient (TemporalVariance)'),
+    ]
+
+  def nd_oracle(self, case, g, p, tag):
+    """implementation's numeric deriv vs the TRANSCRIPTION (`nd_analytic_grad`) of the gradients of DK.C01nd.tvar_grad / cobb_grad /
+    entropy_grad (+ price).  Called after the finite-difference oracle, on kink-free flows only."""
+    fx = case['dev']['prm']['fx']; kind = nd_top(case)
+    s = build.arr(case['s']).astype(float).reshape(-1)
+    if kind == 'cobb' and not (s > 0).all():
+      return []
+    dev = gen_fnx.build_adevice(case['dev'])
+    cm = nd_analytic_cost(fx, s) + float((s*np().array(p, dtype=float)).sum()); ci = float(dev.cost(s, p))
+    if not abs(ci - cm) <= 1e-9*max(1.0, abs(cm)):
+      return [{'key': {'cls': 'ADevice', 'kind': 'cost-analytic', 'fn': tag},
+               'detail': 'ADevice(%s): cost=%.12g but the modelled cost (transcribed %sCost + s.p) is %.12g at s=%s p=%s prm=%s' % (tag, ci, kind, cm, case['s'], case['p'], fx)}]
+    a = nd_analytic_grad(fx, s) + np().array(p, dtype=float)
+    self.bump('transcription oracle: %s numeric deriv vs analytic formula' % kind)
+    bad = ~(np().abs(g - a) <= ND_GRAD_TOL*np().maximum(1, np().abs(a)))
+    if bad.any():
+      i = int(np().argmax(bad))
+      thm = {'tvar': 'DK.C01nd.tvar_grad', 'cobb': 'DK.C01nd.cobb_grad', 'entropy': 'DK.C01nd.entropy_grad'}[kind]
+      return [{'key': {'cls': 'ADevice', 'kind': 'gradient-analytic', 'fn': tag},
+               'detail': 'ADevice(%s): deriv[%d]=%.10g but the analytic gradient (%s, transcribed) is %.10g at s=%s p=%s prm=%s'
+                         % (tag, i, g[i], thm, a[i], case['s'], case['p'], fx)}]
+    return []
 
   @staticmethod
   def dev_of(case):
@@ -111,6 +236,8 @@ class C01(Prop):
 
   def ops(self, case):
     d = case['dev']
+    if nd_top(case) == 'tvar':
+      return self.nd_ops(case)      # TemporalVariance has an exact rational model (lean/DK/Model/FnNd.lean)
     if case.get('fnx'):
       return []          # no model side
     dev = self.dev_of(case)
@@ -158,6 +285,8 @@ class C01(Prop):
         i = int(np().argmax(bad))
         return [{'key': {'cls': 'ADevice', 'kind': 'gradient', 'fn': tag},
                  'detail': 'ADevice(%s): deriv[%d]=%.8g but d cost/d s[%d]=%.8g (finite difference) at s=%s p=%s' % (tag, i, g[i], i, num[i], case['s'], case['p'])}]
+      if nd_top(case):
+        return self.nd_oracle(case, g, p, tag)
       return []
     if case.get('_ints'):
       # the same flow as integer-typed and as float data must give the same cost and marginal cost (no kink argument needed)
